@@ -23,10 +23,11 @@ import re
 #   macros \newcommand, \renewcommand
 #
 def h_newcommand(parser, buf, mac, args, delim, pos):
-    name = parser.get_text_direct(args[1])
+    # NB: as TeX, ignore space behind the macro name and around the number
+    name = parser.get_text_direct(args[1]).strip()
     if name in parser.parms.newcommand_ignore:
         return []
-    nargs = parser.get_text_expanded(args[2])
+    nargs = parser.get_text_expanded(args[2]).strip()
     nargs = int(nargs) if nargs.isdecimal() else 0
     if nargs > 9:
         # TeX allows at most 9 parameters: avoid huge argument code strings
